@@ -125,6 +125,9 @@ def _scratch():
     return d
 
 
+SEQ_IN_USE = [False]  # set once any sequence-sorted term has been built in this process
+
+
 def _py_value(v):
     """Python value of a z3 model value (ints, bools, rationals, Seq Int)."""
     if z3.is_int_value(v):
@@ -151,6 +154,20 @@ def _isolated_check(assertions, timeout_s, want_model):
     import json as _json
     import select
     import signal
+    if not SEQ_IN_USE[0]:
+        # pure arithmetic / boolean / uninterpreted-function queries: z3's timeout is reliable there,
+        # so the fork (expensive with a large heap) is skipped
+        s = z3.Solver()
+        s.set("timeout", int(timeout_s * 1000))
+        s.add(*assertions)
+        res = s.check()
+        verdict = "sat" if res == z3.sat else "unsat" if res == z3.unsat else "unknown"
+        model = None
+        if res == z3.sat and want_model:
+            m = s.model()
+            model = {d.name(): _py_value(m[d]) for d in m.decls() if d.arity() == 0}
+            model["__text__"] = str(m)[:3000]
+        return verdict, model
     r, w = os.pipe()
     pid = os.fork()
     if pid == 0:
@@ -272,6 +289,7 @@ class Context:
         self.concrete = False
 
     def reset_run(self):
+        NONNEG_IDS.clear()
         self.pos = 0
         self.trail: List[list] = []  # [choice, has_alternative]
         self.pc: List[Any] = []
@@ -775,6 +793,7 @@ def seq_lit(values):
 
 def seq_term(x, kind=None):
     """Term of sort Seq Int for a bytes/str-like value."""
+    SEQ_IN_USE[0] = True
     if isinstance(x, SSeq):
         return x.term
     if isinstance(x, (bytes, bytearray)):
@@ -867,6 +886,8 @@ def slice_bounds(sl, n):
                 return z3.If(n < v, n, z3.IntVal(v))
             return z3.If(n + v < 0, z3.IntVal(0), n + v)
         t = num_term(v)
+        if known_nonneg(t):
+            return z3.If(t > n, n, t)  # the negative-index branch of Python's slicing cannot apply
         return z3.If(t < 0, z3.If(t + n < 0, 0, t + n), z3.If(t > n, n, t))
 
     lo = clamp(sl.start, z3.IntVal(0))
@@ -1376,10 +1397,30 @@ class SList:
 # fresh symbolic inputs
 
 
+NONNEG_IDS = set()  # names of integer constants assumed >= 0 at creation (cleared at the start of every run)
+
+
+def known_nonneg(t):
+    """Syntactic sufficient condition for t >= 0 (used to simplify slice bounds)."""
+    if z3.is_int_value(t):
+        return t.as_long() >= 0
+    if z3.is_const(t):
+        return t.decl().name() in NONNEG_IDS
+    if z3.is_app(t):
+        k = t.decl().kind()
+        if k == z3.Z3_OP_ADD or k == z3.Z3_OP_MUL:
+            return all(known_nonneg(c) for c in t.children())
+        if k == z3.Z3_OP_SEQ_LENGTH:
+            return True
+    return False
+
+
 def fresh_int(name, lo=None, hi=None):
     c = ctx()
     t = z3.Int(name)
     c.symbols[name] = ("int", t)
+    if lo is not None and lo >= 0:
+        NONNEG_IDS.add(name)
     if lo is not None:
         c.assume(t >= lo)
     if hi is not None:
@@ -1400,6 +1441,7 @@ def fresh_bool(name):
 
 
 def fresh_seq(name, kind="bytes", maxlen=None, minlen=None):
+    SEQ_IN_USE[0] = True
     t = z3.Const(name, IntSeq)
     c = ctx()
     c.symbols[name] = (kind, t)
@@ -1425,6 +1467,7 @@ def fresh_list(name, elem="val"):
         sort = IntSeq
     else:
         raise Unsupported("list elem %r" % (elem,))
+    SEQ_IN_USE[0] = True
     t = z3.Const(name, sort)
     ctx().symbols[name] = ("list:%s" % (elem,), t)
     return SList(t, elem)
